@@ -557,6 +557,10 @@ class Interp:
             if m: return m(self, b)
         if hasattr(b, '_pyvc_attrs') and name in b._pyvc_attrs: return b._pyvc_attrs[name]
         raise Unsupported(f"attribute .{name} on {type(b).__name__}")
+    def e_NamedExpr(self, e, F):
+        v = self.ev(e.value, F)
+        self.assign(e.target, v, F)
+        return v
     def e_Tuple(self, e, F): return tuple(self.ev(x, F) for x in e.elts)
     def e_List(self, e, F): return [self.ev(x, F) for x in e.elts]
     def e_Dict(self, e, F): return {self.ev(k, F): self.ev(v, F) for k, v in zip(e.keys, e.values)}
